@@ -32,3 +32,75 @@ Proof.
   - apply Nat.leb_le in E. apply Z.leb_le. lia.
   - apply Nat.leb_gt in E. apply Z.leb_gt. lia.
 Qed.
+
+(* ================================================================================================
+   Phase 2: Algorithm.run GENERATED from platypus/core.py is [run] of Model/RunLoop.v.
+   Reading (declared in harness/translate/py2coq_core.py, printed above the generated definition): `self` is an
+   opaque state that every extension hook, step() and the callback transform; self._extensions is read from the
+   current state each time a hook loop starts; `condition` is a TerminationCondition (not an int), an opaque
+   object that initialize(self) updates and that is called as condition(self).  The while loop runs on explicit fuel.
+   Tie: for the MaxEvaluations condition (state = (starting_nfe, nfe budget), initialize records nfe, the call is
+   should_terminate) with the model's hooks being the folds of the per-extension hooks over the extension list.
+   Two generated definitions come from the one function: callback given / callback is None. *)
+Section RunTie.
+  Variables St Ext : Type.
+  Variable nfe : St -> nat.
+  Variable exts : St -> list Ext.
+  Variables e_start e_pre e_post e_end : Ext -> St -> St.
+  Variables alg_step callback : St -> St.
+
+  (* "for extension in self._extensions: extension.h(self)" *)
+  Definition hooks (h : Ext -> St -> St) (s : St) : St := fold_left (fun w e => h e w) (exts s) s.
+
+  Definition me_initialize (c : nat * nat) (s : St) : nat * nat := (nfe s, snd c).
+  Definition me_call (c : nat * nat) (s : St) : bool := should_terminate St nfe (fst c) (snd c) s.
+
+  Lemma run_while : forall (cb : St -> St) (cond : St -> bool) (body : St -> ctl St (St * (nat * nat))) (start N : nat),
+    (forall w, cond w = negb (should_terminate St nfe start N w)) ->
+    (forall w, body w = Next (step St (hooks e_pre) (hooks e_post) alg_step cb w)) ->
+    forall fuel s,
+    while_fuel fuel cond body s
+    = match loop St nfe (hooks e_pre) (hooks e_post) alg_step cb fuel start N s with
+      | Some s' => Next s'
+      | None => Raise
+      end.
+  Proof.
+    intros cb cond body start N Hc Hb.
+    induction fuel as [|f IH]; intro s; cbn [while_fuel loop]; rewrite Hc;
+      destruct (should_terminate St nfe start N s); cbn [negb]; try reflexivity.
+    rewrite Hb. apply IH.
+  Qed.
+
+  Theorem tie_run : forall (N : nat) (s : St) (c0 : nat),
+    Core.Algorithm_run St Ext (nat * nat) N exts e_start e_pre e_post e_end alg_step me_initialize me_call callback s (c0, N)
+    = match run St nfe (hooks e_start) (hooks e_end) (hooks e_pre) (hooks e_post) alg_step callback N s with
+      | Some s' => Some (s', (nfe s, N))
+      | None => None
+      end.
+  Proof.
+    intros N s c0. unfold Core.Algorithm_run, run. cbv zeta.
+    rewrite for_list_hook. cbn [bind]. fold (hooks e_start s).
+    rewrite (run_while callback _ _ (nfe s) N); [| intro w; reflexivity |].
+    2: { intro w. rewrite for_list_hook. cbn [bind]. rewrite for_list_hook. cbn [bind]. reflexivity. }
+    destruct (loop St nfe (hooks e_pre) (hooks e_post) alg_step callback N (nfe s) N (hooks e_start s)) as [s'|];
+      cbn [bind finish]; [|reflexivity].
+    rewrite for_list_hook. reflexivity.
+  Qed.
+
+  (* callback=None: the model's callback is the identity *)
+  Theorem tie_run_no_callback : forall (N : nat) (s : St) (c0 : nat) (unused : St -> St),
+    Core.Algorithm_run_no_callback St Ext (nat * nat) N exts e_start e_pre e_post e_end alg_step me_initialize me_call unused s (c0, N)
+    = match run St nfe (hooks e_start) (hooks e_end) (hooks e_pre) (hooks e_post) alg_step (fun w => w) N s with
+      | Some s' => Some (s', (nfe s, N))
+      | None => None
+      end.
+  Proof.
+    intros N s c0 unused. unfold Core.Algorithm_run_no_callback, run. cbv zeta.
+    rewrite for_list_hook. cbn [bind]. fold (hooks e_start s).
+    rewrite (run_while (fun w => w) _ _ (nfe s) N); [| intro w; reflexivity |].
+    2: { intro w. rewrite for_list_hook. cbn [bind]. rewrite for_list_hook. cbn [bind]. reflexivity. }
+    destruct (loop St nfe (hooks e_pre) (hooks e_post) alg_step (fun w => w) N (nfe s) N (hooks e_start s)) as [s'|];
+      cbn [bind finish]; [|reflexivity].
+    rewrite for_list_hook. reflexivity.
+  Qed.
+End RunTie.
